@@ -4,13 +4,28 @@
 (*    classes of connected patterns is 6 (3 nodes) and 171 (4 nodes); classes  *)
 (*    partition the connected labelled patterns; the tuple order is a strict   *)
 (*    total order with exactly one canonical pattern per directed class.       *)
-(*  - invariants, in every reachable state of the bounded container            *)
-(*    (Kind = "hg": every hypergraph on Node with hyperedge sizes 1..|Node|;   *)
-(*     Kind = "dir": every directed hypergraph on Node).                       *)
-EXTENDS MC_HGX, Motifs
+(*  - invariants, in EVERY state of the container model over Node (all of them *)
+(*    are initial states; Node = 1..n):                                        *)
+(*    Kind = "hg": every hypergraph on Node with hyperedge sizes 1..n;         *)
+(*    Kind = "dir": every directed hypergraph on Node.                         *)
+EXTENDS HGXOps, Motifs
+VARIABLE st
+
+\* every well-formed state over Node (unit weights, no metadata): all of them are initial states
+KeysIn(U) == {k \in KeyU : KN(k) \subseteq U}
+MkState(U, Ks) == [nodes |-> U, E |-> [k \in Ks |-> [w |-> 1, md |-> NoMeta]], nmd |-> [n \in U |-> NoMeta],
+                   hmd |-> Empty(Weighted, TypeName).hmd, wtd |-> Weighted]
+Init == \E U \in SUBSET Node : \E Ks \in SUBSET KeysIn(U) : st = MkState(U, Ks)
+Next == UNCHANGED st
+Bound == TRUE
+TypeOK == WellFormed(st)
 
 Hg == HEdges(st)
 NodePerms == Bijections(Node)
+\* adjacent transpositions generate all permutations of Node; the universe explored is closed under
+\* relabelling, so invariance of every hypergraph under the generators is invariance under all of them
+Swap(i) == [n \in Node |-> IF n = i THEN i + 1 ELSE IF n = i + 1 THEN i ELSE n]
+GenPerms == {Swap(i) : i \in 1..(Cardinality(Node) - 1)}
 HRelabel(f, G) == {{f[n] : n \in e} : e \in G}
 Orders == {k \in {3, 4} : k <= Cardinality(Node)}
 
@@ -18,14 +33,14 @@ Orders == {k \in {3, 4} : k <= Cardinality(Node)}
 (* ---- those about the directed encoding in the "dir" runs)                                  ---- *)
 \* 6 and 171 classes; the classes partition the connected labelled patterns (so "the class of a
 \* pattern" is well defined and connectedness is a property of the class); the cached tables of
-\* Motifs.tla are the definitions
+\* Motifs.tla are the definitions and ClassOf finds the orbit
 ClassFacts(k, nclasses, npatterns) ==
    LET cls == Classes(k)  cp == ConnPatterns(k) IN
    /\ Cardinality(cls) = nclasses /\ Cardinality(cp) = npatterns
    /\ UNION cls = cp
    /\ \A c1, c2 \in cls : (c1 # c2) => (c1 \cap c2 = {})
    /\ cls = ClassSet(k)
-   /\ \A P \in cp : P \in ClassTab(k)[P]
+   /\ \A P \in SUBSET EdgeUniverse(k) : ClassOf(P, k) = IF Connected(P, k) THEN Orbit(P, k) ELSE {}
 ASSUME ClassCount3 == Kind = "hg" => ClassFacts(3, 6, 12)
 ASSUME ClassCount4 == Kind = "hg" => ClassFacts(4, 171, 1990)
 
@@ -43,12 +58,18 @@ ASSUME CodeOrderIsTupleOrder == Kind = "dir" => \A k \in {3, 4} : \A e, g \in DE
 \* exactly one pattern with a minimal encoding in the orbit of every 1- or 2-hyperedge pattern on 4 nodes
 \* (1275 patterns); IsCanonical singles it out and agrees with the definition
 ASSUME CanonUniqueSmall4 == Kind = "dir" => \A P \in SmallDPatterns :
-   LET orb == DOrbit(P, 4) IN
-   /\ Cardinality({Q \in orb : IsCanonical(Q, 4)}) = 1
-   /\ IsCanonical(P, 4) <=> IsCanonicalDef(P, 4)
+   LET orb  == DOrbit(P, 4)
+       cd   == [Q \in orb |-> Codes(Q, 4)]
+       mins == {Q \in orb : \A R \in orb : ~CodeLess(cd[R], cd[Q])}
+   IN /\ Cardinality(mins) = 1
+      /\ IsCanonical(P, 4) <=> (P \in mins)
+      /\ IsCanonical(P, 4) <=> IsCanonicalDef(P, 4)
+      /\ Canon(P, 4) \in mins
 
-(* ---- invariants over the reachable hypergraphs ("hg") -------------------- *)
-CensusRelabelInvariant == \A k \in Orders : \A f \in NodePerms :
+(* ---- invariants over all hypergraphs ("hg") -------------------- *)
+CensusRelabelInvariant == \A k \in Orders : \A f \in GenPerms :
+   CensusNZ(HRelabel(f, Hg), Node, k) = CensusNZ(Hg, Node, k)
+CensusRelabelInvariantAllPerms == \A k \in Orders : \A f \in NodePerms :
    CensusNZ(HRelabel(f, Hg), Node, k) = CensusNZ(Hg, Node, k)
 CensusIgnoresLarge == \A k \in Orders :
    CensusNZ({e \in Hg : Cardinality(e) <= k}, Node, k) = CensusNZ(Hg, Node, k)
@@ -71,7 +92,7 @@ ThreePassCover == \A k \in Orders :
       /\ \A S \in notfull : Pattern(Hg, S) = Pattern({e \in Hg : Cardinality(e) < k}, S)
       /\ full \cup notfull \subseteq ConnSets(Hg, Node, k)
 
-(* ---- invariants over the reachable directed hypergraphs ("dir") ---------- *)
+(* ---- invariants over all directed hypergraphs ("dir") ---------- *)
 Dg == DEdges(st)
 DP == DPattern(Dg, Node)                    \* Node = 1..n, so this is the hypergraph itself as a pattern
 DirCanonUnique == LET k == Cardinality(Node) IN Cardinality({Q \in DOrbit(DP, k) : IsCanonical(Q, k)}) = 1
